@@ -70,7 +70,9 @@ def _run_replica(case: dict, hashseed: int, log_draws: bool = False) -> dict:
     env = dict(os.environ, PYTHONHASHSEED=str(hashseed))
     try:
         p = subprocess.run([sys.executable, "-u", _RUNNER, path], env=env, capture_output=True, text=True,
-                           timeout=600, check=False)
+                           timeout=float(os.environ.get("VERIF_REPLICA_TIMEOUT", "600")), check=False)
+    except subprocess.TimeoutExpired:
+        return {"error": "replica timed out (hang?) for case " + json.dumps(case)}
     finally:
         os.unlink(path)
     line = next((ln for ln in p.stdout.splitlines() if ln.startswith("RESULT ")), None)
